@@ -12,17 +12,14 @@ func verifYieldBlocked(label string) { VerifYieldBlocked(label) }
 
 // VerifPeek reads the gate's internal state while every managed goroutine is parked (used only to
 // tighten trace conformance, never by the property monitors): flush flag, number of buffered
-// lines, whether the lock is write-held / read-held.
-func (w *GatedWriter) VerifPeek() (flush bool, nbuf int, wr bool, rd bool) {
+// lines, whether the lock is held by anybody (works for sync.Mutex and sync.RWMutex).
+func (w *GatedWriter) VerifPeek() (flush bool, nbuf int, locked bool) {
 	if w.lock.TryLock() {
 		w.lock.Unlock()
-	} else if w.lock.TryRLock() {
-		w.lock.RUnlock()
-		rd = true
 	} else {
-		wr = true
+		locked = true
 	}
-	return w.flush, len(w.buf), wr, rd
+	return w.flush, len(w.buf), locked
 }
 
 // VerifPeek: ring contents (as stored), next index, number of handlers, lock held.
